@@ -1034,4 +1034,162 @@ theorem output_insert (hZ : ∀ s n, Z n → Z (s ++ "." ++ n)) (env : Env) (z :
           · show Except.ok (s'.writes ++ _) = Except.ok (s.writes ++ _)
             rw [h2.writes]
 
+/-! ## one more *label* of a name nothing mentions -/
+
+theorem RZ.addLabel_z {r r' : Resolver} (h : RZ Z r r') (z : String) (hz : Z z) (v : Int) : RZ Z r (r'.addLabel z v) := by
+  obtain ⟨sc, rfl⟩ := h.eq
+  refine ⟨⟨sc.modify r.current _, rfl⟩, by simp [Resolver.addLabel, Resolver.modifyCur]; exact h.size, ?_⟩
+  intro i
+  show SameZ Z (r.scopes.getD i default) ((sc.modify r.current _).getD i default)
+  rw [getD_modify']
+  have hi := h.sc i
+  split
+  · exact ⟨hi.kind, hi.parent, hi.code, hi.table,
+      fun m hm => by rw [hi.syms m hm]; exact (alookup_ainsert_ne' z m v _ (fun e => hm (e ▸ hz))).symm,
+      fun m hm => by rw [hi.labs m hm]; exact (alookup_ainsert_ne' z m v _ (fun e => hm (e ▸ hz))).symm,
+      hi.nda, nodup_ainsert _ _ _ hi.ndb⟩
+  · exact hi
+
+theorem passLoop_insert_label (hZ : ∀ s n, Z n → Z (s ++ "." ++ n)) (env : Env) (skip : Node → Bool) (z : String) (hz : Z z)
+    (b : List Node) : ∀ (a : List Node), (∀ n ∈ a ++ b, FreeN Z n) → ∀ (r r' : Resolver) (pc pc' : Address), pc' = pc →
+    RZ Z r r' → RP Z (passLoop env skip (a ++ b) r pc) (passLoop env skip (a ++ Node.label z :: b) r' pc') := by
+  intro a
+  induction a with
+  | nil =>
+    intro hf r r' pc pc' hpc h
+    subst hpc
+    simp only [List.nil_append]
+    conv => rhs; unfold passLoop
+    by_cases hs : skip (Node.label z) = true
+    · rw [if_pos hs]; exact passLoop_rz hZ env skip b hf r r' pc' h
+    · rw [if_neg hs]
+      show RP Z _ (passLoop env skip b (r'.addLabel z pc'.logical) pc')
+      exact passLoop_rz hZ env skip b hf r _ pc' (h.addLabel_z z hz _)
+  | cons n ns ih =>
+    intro hf r r' pc pc' hpc h
+    subst hpc
+    simp only [List.cons_append]
+    unfold passLoop
+    by_cases hs : skip n = true
+    · rw [if_pos hs, if_pos hs]; exact ih (fun m hm => hf m (List.mem_cons_of_mem _ hm)) r r' pc' pc' rfl h
+    · rw [if_neg hs, if_neg hs]
+      have := pcAfter_rz hZ env n (hf n List.mem_cons_self) h pc'
+      revert this
+      cases pcAfter env n r pc' with
+      | error e =>
+        cases pcAfter env n r' pc' with
+        | error e' => intro this; exact this
+        | ok x => intro this; obtain ⟨x1, x2⟩ := x; exact this.elim
+      | ok x =>
+        obtain ⟨r1, pc1⟩ := x
+        cases pcAfter env n r' pc' with
+        | error e' => intro this; exact this.elim
+        | ok y =>
+          obtain ⟨r1', pc1'⟩ := y
+          intro this
+          obtain ⟨h1, h2⟩ := this
+          subst h2
+          exact ih (fun m hm => hf m (List.mem_cons_of_mem _ hm)) r1 r1' pc1 pc1 rfl h1
+
+theorem resolveLabels_insert_label (hZ : ∀ s n, Z n → Z (s ++ "." ++ n)) (env : Env) (z : String) (hz : Z z)
+    (a b : List Node) (hf : ∀ n ∈ a ++ b, FreeN Z n) (r r' : Resolver) (h : RZ Z r r') :
+    RR Z (resolveLabels env (a ++ b) r) (resolveLabels env (a ++ Node.label z :: b) r') := by
+  rw [resolveLabels_eq, resolveLabels_eq]
+  apply RP.bindRR (passLoop_insert_label hZ env Node.isSymbol z hz b a hf _ _ _ _ h.lastUsed0.reloc h.lastUsed0)
+  intro a1 b1 pc1 h1
+  have hr := h1.reset
+  apply RP.bindRR (passLoop_insert_label hZ env Node.isLabelOrBinary z hz b a hf _ _ _ _ hr.reloc hr)
+  intro a2 b2 pc2 h2
+  exact h2.reset
+
+/-- emitting the extra label: its emission-time check fails, or nothing the writer sees changes -/
+theorem emitStep_label (env : Env) (z : String) {st st' : EmitState} (h : RS Z st st') :
+    RES Z (.ok st) (emitStep env (Node.label z) st') ∨ ∃ e, emitStep env (Node.label z) st' = .error e := by
+  rw [emitStep_eq]
+  simp only [emitNode]
+  cases checkLabel st'.r z st'.r.reloc with
+  | error e => exact Or.inr ⟨e, rfl⟩
+  | ok u =>
+    left
+    show RES Z (.ok st) (match stepF st' st'.r [] with | .error e => .error e | .ok st1 => postF (Node.label z) st1)
+    exact ⟨h.r, h.block, h.blockAddr, h.writes, h.own⟩
+
+theorem emitLoop_insert_label (hZ : ∀ s n, Z n → Z (s ++ "." ++ n)) (env : Env) (z : String) (b : List Node) :
+    ∀ (a : List Node), (∀ n ∈ a ++ b, FreeN Z n) → ∀ (st st' : EmitState), RS Z st st' →
+    RES Z (emitLoop env (a ++ b) st) (emitLoop env (a ++ Node.label z :: b) st') ∨
+      ∃ e, emitLoop env (a ++ Node.label z :: b) st' = .error e := by
+  intro a
+  induction a with
+  | nil =>
+    intro hf st st' h
+    simp only [List.nil_append]
+    conv => rhs; unfold emitLoop
+    conv => lhs; rhs; unfold emitLoop
+    rcases emitStep_label env z h with hs | ⟨e, he⟩
+    · revert hs
+      cases emitStep env (Node.label z) st' with
+      | error e' => intro hs; exact hs.elim
+      | ok s1' => intro hs; exact Or.inl (emitLoop_rz hZ env b hf st s1' hs)
+    · rw [he]; exact Or.inr ⟨e, rfl⟩
+  | cons n ns ih =>
+    intro hf st st' h
+    simp only [List.cons_append]
+    unfold emitLoop
+    have hs := emitStep_rz hZ env n (hf n List.mem_cons_self) h
+    revert hs
+    cases emitStep env n st with
+    | error e =>
+      cases emitStep env n st' with
+      | error e' => intro hs; exact Or.inl hs
+      | ok y => intro hs; exact hs.elim
+    | ok s1 =>
+      cases emitStep env n st' with
+      | error e' => intro hs; exact hs.elim
+      | ok s1' => intro hs; exact ih (fun m hm => hf m (List.mem_cons_of_mem _ hm)) s1 s1' hs
+
+/-- **one more label of a name nothing mentions either leaves the output unchanged or makes the assembly fail** (the label's
+    own emission-time check — "label moved / hidden" — is the only thing that can fail because of it) -/
+theorem output_insert_label (hZ : ∀ s n, Z n → Z (s ++ "." ++ n)) (env : Env) (z : String) (hz : Z z) (a b : List Node)
+    (hf : ∀ n ∈ a ++ b, FreeN Z n) (r : Resolver) (hk : ∀ i, NodupKeys (r.scopes.getD i default).symbols) :
+    output env (a ++ Node.label z :: b) r = output env (a ++ b) r ∨ ∃ e, output env (a ++ Node.label z :: b) r = .error e := by
+  unfold output
+  have hr := resolveLabels_insert_label hZ env z hz a b hf r r (RZ.refl r hk)
+  revert hr
+  cases resolveLabels env (a ++ b) r with
+  | error e =>
+    cases resolveLabels env (a ++ Node.label z :: b) r with
+    | error e' => intro hr; exact Or.inr ⟨e', rfl⟩
+    | ok y => intro hr; exact hr.elim
+  | ok r1 =>
+    cases resolveLabels env (a ++ Node.label z :: b) r with
+    | error e' => intro hr; exact hr.elim
+    | ok r1' =>
+      intro hr
+      have h1 : RZ Z r1 r1' := hr
+      simp only []
+      unfold emitAll
+      have hs : RS Z ⟨r1, [], r1.pc, [], [], []⟩ ⟨r1', [], r1'.pc, [], [], []⟩ := ⟨h1, rfl, h1.pc, rfl, rfl⟩
+      rcases emitLoop_insert_label hZ env z b a hf _ _ hs with hl | ⟨e, he⟩
+      · revert hl
+        cases emitLoop env (a ++ b) ⟨r1, [], r1.pc, [], [], []⟩ with
+        | error e =>
+          cases emitLoop env (a ++ Node.label z :: b) ⟨r1', [], r1'.pc, [], [], []⟩ with
+          | error e' => intro hl; exact Or.inr ⟨e', rfl⟩
+          | ok y => intro hl; exact hl.elim
+        | ok s =>
+          cases emitLoop env (a ++ Node.label z :: b) ⟨r1', [], r1'.pc, [], [], []⟩ with
+          | error e' => intro hl; exact hl.elim
+          | ok s' =>
+            intro hl
+            have h2 : RS Z s s' := hl
+            left
+            simp only []
+            rw [h2.block, h2.blockAddr]
+            split
+            · show Except.ok s'.writes = Except.ok s.writes
+              rw [h2.writes]
+            · show Except.ok (s'.writes ++ _) = Except.ok (s.writes ++ _)
+              rw [h2.writes]
+      · rw [he]; exact Or.inr ⟨e, rfl⟩
+
 end A816.Unrel
